@@ -461,4 +461,3 @@ func (p c17) Exec(c *run.Ctx, idx int, raw json.RawMessage) []run.Result {
 	}
 	return out
 }
-
